@@ -11,6 +11,7 @@ import pyvaporation as pv
 from pyvaporation.diffusion_curve import DiffusionCurve, DiffusionCurveSet
 from pyvaporation.experiments import IdealExperiment, IdealExperiments
 from pyvaporation.membrane import Membrane
+from pyvaporation.mixtures import mixture as mixmod
 from pyvaporation.optimizer import optimizer as opt
 from pyvaporation.optimizer.optimizer import Measurement, Measurements, PervaporationFunction
 from pyvaporation.pervaporation.pervaporation import Pervaporation
@@ -361,8 +362,69 @@ GROUPS = [["flux_solver"], ["permeate_composition"], ["separation_factor"], ["pe
           ["fit"], ["find_best_fit"], ["non_ideal_curve"], ["ideal_iso"], ["ideal_noniso"], ["nonideal_iso"], ["nonideal_noniso"]]
 
 
+def concrete_thermo(inp):
+    """the thermodynamic functions on caller-held compositions (also exactly pure ones): arguments untouched, a repeated call gives the same numbers"""
+    from pyvaporation.mixtures import Mixtures as _M
+    bad = []
+    for name in ("H2O_EtOH", "MeOH_MTBE"):
+        mix = getattr(_M, name)
+        for model in ("NRTL", "UNIQUAC"):
+            for basis in ("molar", "weight"):
+                for p in (0.0, 1.0, 0.3, inp.get("x")):
+                    if p is None or not 0 <= p <= 1:
+                        continue
+                    c = mixmod.Composition(p, basis)
+                    for fn in (mixmod.get_partial_pressures, mixmod.calculate_activity_coefficients):
+                        first = tuple(float(v) for v in fn(333.15, mix, c, model))
+                        if c.p != p or c.type != basis:
+                            bad.append("%s(%s, %s) changed the caller's Composition(%r, %s) to (%r, %s)" % (fn.__name__, name, model, p, basis, c.p, c.type))
+                            c = mixmod.Composition(p, basis)
+                            continue
+                        again = tuple(float(v) for v in fn(333.15, mix, c, model))
+                        if again != first:
+                            bad.append("%s(%s, %s) at Composition(%r, %s): %r, repeated %r" % (fn.__name__, name, model, p, basis, first, again))
+    return {"ok": not bad, "detail": "; ".join(bad[:3]), "inputs": inp}
+
+
+def thermo(job):
+    """real calculate_activity_coefficients / get_partial_pressures (both models) on a caller-held Composition with p in the CLOSED interval:
+    the argument object is untouched on every leaf (the pure ends are leaves of their own) and a repeated call returns the same terms"""
+    job.bound(calls_per_object=2)
+    job.assume("0 <= p <= 1 (closed), 273 < T < 400")
+    from pyvaporation.mixtures import Mixtures as _M
+    T, x = real("T"), real("x")
+    dom = [T.t > 273, T.t < 400, x.t >= 0, x.t <= 1]
+    mix = build.lift_obj(_M.H2O_EtOH)
+    for model in ("NRTL", "UNIQUAC"):
+        for basis in ("molar", "weight"):
+            for fname in ("get_partial_pressures", "calculate_activity_coefficients"):
+                fn = getattr(mixmod, fname)
+                tag = "C20/thermo/%s/%s/%s" % (fname, model, basis)
+
+                def run(fn=fn, basis=basis, model=model):
+                    c = build.comp(x, basis)
+                    r1 = fn(T, mix, c, model)
+                    seen = (c.p, c.type)
+                    r2 = fn(T, mix, c, model)
+                    return c, seen, r1, r2
+
+                n = 0
+                for leaf in job.explore(run, dom, timeout_ms=200):
+                    if leaf.kind != "returned":
+                        continue
+                    n += 1
+                    c, seen, r1, r2 = leaf.value
+                    untouched = seen[1] == basis and c.type == basis and all(isinstance(v, SReal) and z3.eq(v.t, x.t) for v in (seen[0], c.p))
+                    job.judge("%s/leaf%d/argument_untouched" % (tag, n), untouched, "Composition(p, %s) became (%s, %s)" % (basis, seen[0], seen[1]),
+                              "vf.props.C20:concrete_thermo", {}, nontrivial=True)
+                    job.prove("%s/leaf%d/repeatable" % (tag, n), dom + leaf.conds(), [lift(a) != lift(b) for a, b in zip(r1, r2)],
+                              "vf.props.C20:concrete_thermo", {"x": x.t}, congruence=["EXP", "LOG"], timeout=20)
+                if n == 0:
+                    job.unreached(tag)
+
+
 def jobs(tier):
-    js = []
+    js = [("thermo", "thermo", {})]
     modes = ("ptemp",) if tier == "quick" else proc.MODES
     for mode in modes:
         for nc in (1, 2):
